@@ -367,11 +367,12 @@ def o_term(rec, world, hist=None):
     out = []
     sim = rec.sim
     ix = index(rec)
-    interrupted = bool(rec.rt.fired.get("interrupt"))
+    interrupted = any(k.startswith("interrupt") for k in rec.rt.fired)
     tags = {"interrupt": interrupted}
     if interrupted:
         started = sum(1 for ev in rec.events if ev[3] == "thread-start")
         tags["during_pool_startup"] = _interrupt_during_startup(rec)
+        tags["inside_thread_start_after_spawn"] = _interrupt_inside_started_wait(rec)
     if sim.hung is not None and sim.abort_reason in ("deadlock", "step-cap", "virtual-time-cap"):
         out.append(V("hang", f"run did not terminate: {sim.hung['why']} at step {sim.hung['steps']}; "
                              f"threads: {sim.hung['threads']}", **tags))
@@ -395,6 +396,15 @@ def o_term(rec, world, hist=None):
     if rec.rt.inflight != 0 or rec.rt.inflight_mtime != 0:
         out.append(V("inflight-at-exit", f"{rec.rt.inflight} call(s) still executing when run returned", **tags))
     return out
+
+
+def _interrupt_inside_started_wait(rec):
+    """Was the interrupt delivered inside Thread.start() after the new thread had been created (CPython: during
+    `self._started.wait()`), so that start() raised although the thread runs?"""
+    for ev in rec.events:
+        if ev[3] == "interrupt-delivered":
+            return "thread-start-wait" in str(ev[5])
+    return False
 
 
 def _interrupt_during_startup(rec):
